@@ -234,3 +234,104 @@ from .sweep2 import always_visits, _ALG, _EXCL  # noqa: E402
 
 _add("C04", always_visits, "C04.16", [_ALG + "expand_macros"], _EXCL)   # a replacer that skips the body of a zero-count loop (seed C12-5)
 _add("C12", always_visits, "C12.11", [_ALG + "expand_macros", _ALG + "expand_subcircuits", _ALG + "walkers"], _EXCL)
+
+
+# ---------------------------------------------------------------- C15 / C16: outcomes are range-checked
+
+def outcome_range_checked(ctx, rep, rule):
+    """The integer made from a hardware outcome indexes the array of bins.  numpy wraps a negative index and
+    raises IndexError for one that is too large, so both ends have to be refused explicitly before the readout
+    is recorded."""
+    ix = ctx.ix
+    OP = "jaqalpaq.core.result.OutputParser"
+    m = _method(ix, OP, "process_trace")
+    rep.rule(rule, "the outcome that OutputParser.process_trace records is compared with both ends of 0..2^n-1 under a raise before it becomes a Readout (a negative index wraps around to another bin; a large one is an IndexError, not a JaqalError)", floor=1)
+    cons = construct_of(m, "outcome-range")
+    made = [c for c in ast.walk(m.node) if isinstance(c, ast.Call) and isinstance(c.func, ast.Name) and c.func.id == "Readout" and c.args]
+    if not made or not isinstance(made[0].args[0], ast.Name):
+        rep.undecided(rule, cons, "the construction of the Readout is not recognised", m.loc())
+        return
+    x = made[0].args[0].id
+    lower = upper = False
+    where = None
+    for st in iter_stmts(m.body):
+        if not (isinstance(st, ast.If) and st.lineno < made[0].lineno and any(isinstance(r, ast.Raise) for b in st.body for r in ast.walk(b))):
+            continue
+        for c in ast.walk(st.test):
+            if not isinstance(c, ast.Compare):
+                continue
+            terms = [c.left] + list(c.comparators)
+            if not any(isinstance(t, ast.Name) and t.id == x for t in terms):
+                continue
+            where = st
+            if len(c.ops) == 1 and isinstance(c.ops[0], (ast.NotIn, ast.In)) and isinstance(terms[1], ast.Call) and isinstance(terms[1].func, ast.Name) and terms[1].func.id == "range":
+                lower = upper = True
+                continue
+            for a, op, b in zip(terms, c.ops, terms[1:]):
+                if not isinstance(op, (ast.Lt, ast.LtE, ast.Gt, ast.GtE)):
+                    continue
+                other = b if (isinstance(a, ast.Name) and a.id == x) else a if (isinstance(b, ast.Name) and b.id == x) else None
+                if other is None:
+                    continue
+                if isinstance(other, ast.Constant) and other.value in (0, -1):
+                    lower = True
+                elif isinstance(other, ast.UnaryOp) and isinstance(other.operand, ast.Constant):
+                    lower = True
+                else:
+                    upper = True
+    loc = f"{m.path}:{(where or made[0]).lineno}"
+    if lower and upper:
+        rep.ok(rule, cons, f"`{ast.unparse(where.test)[:70]}` refuses both ends", loc)
+    elif lower or upper:
+        rep.violation(rule, cons, f"`{ast.unparse(where.test)[:70]}` bounds `{x}` on one side only: " + ("an outcome of 2^n or more still ends in IndexError" if lower else "the outcome -1 (numpy.int8 of 255, the string '1-') is still counted in the bin of 2^n-1"), loc, witness="parse_jaqal_output_list(circuit_with_3_qubits, [-1])")
+    else:
+        rep.violation(rule, cons, f"`{x}` becomes a Readout and an index into the bins without any range check: the outcome -1 (numpy.int8 of 255, the string '1-') is counted in the bin of 2^n-1 and keeps as_int == -1, as_str == '10-'; 2^n fails with IndexError instead of JaqalError", loc, witness="parse_jaqal_output_list(circuit_with_3_qubits, [-1])")
+
+
+_add("C15", outcome_range_checked, "C15.19")
+_add("C16", outcome_range_checked, "C16.34")
+
+
+# ---------------------------------------------------------------- C01: bool is an int whose text is a word
+
+def value_writer_converts_bool(ctx, rep, rule):
+    ix = ctx.ix
+    f = _func(ix, "jaqalpaq.generator.generator.generate_jaqal_value")
+    rep.rule(rule, "the value writer formats an int with str()/repr() only after bool (an int whose str() is `True` / `False`) has been converted or refused", floor=1)
+    cons = construct_of(f, "bool-before-str")
+    valn = f.params[0]
+    fmt = [c for c in ast.walk(f.node) if isinstance(c, ast.Call) and isinstance(c.func, ast.Name) and c.func.id in ("str", "repr", "format") and c.args and isinstance(c.args[0], ast.Name) and c.args[0].id == valn]
+    fmt += [c for c in ast.walk(f.node) if isinstance(c, ast.FormattedValue) and isinstance(c.value, ast.Name) and c.value.id == valn and not any(isinstance(r, ast.Raise) and c in ast.walk(r) for r in ast.walk(f.node))]
+    if not fmt:
+        rep.undecided(rule, cons, "no str()/repr() of the value found", f.loc())
+        return
+    first = min(c.lineno for c in fmt)
+    # does the formatting branch admit ints at all?
+    admits_int = False
+    for t, taken in _enclosing_ifs(f.node, fmt[0]):
+        for m in ast.walk(t):
+            if isinstance(m, ast.Call) and isinstance(m.func, ast.Name) and m.func.id == "isinstance" and len(m.args) == 2 and isinstance(m.args[0], ast.Name) and m.args[0].id == valn:
+                ts = m.args[1].elts if isinstance(m.args[1], ast.Tuple) else [m.args[1]]
+                if any(ast.unparse(x).split(".")[-1] in ("int", "Integral", "Real", "Number") for x in ts):
+                    admits_int = True
+    if not admits_int:
+        rep.undecided(rule, cons, "the formatting branch is not guarded by an isinstance test that admits int", f.loc())
+        return
+    handled = None
+    for m in ast.walk(f.node):
+        if isinstance(m, ast.Call) and isinstance(m.func, ast.Name) and m.func.id == "isinstance" and len(m.args) == 2 and isinstance(m.args[0], ast.Name) and m.args[0].id == valn and m.lineno <= first:
+            ts = m.args[1].elts if isinstance(m.args[1], ast.Tuple) else [m.args[1]]
+            if any(isinstance(x, ast.Name) and x.id == "bool" for x in ts):
+                handled = m
+    if handled is None:
+        for m in ast.walk(f.node):   # `type(val) is int`, `val is True` style tests
+            if isinstance(m, ast.Compare) and m.lineno <= first and "bool" in ast.unparse(m) and valn in ast.unparse(m):
+                handled = m
+    if handled is not None:
+        rep.ok(rule, cons, f"`{ast.unparse(handled)}` deals with bool before the value is formatted", f"{f.path}:{handled.lineno}")
+    else:
+        rep.violation(rule, cons, f"`{ast.unparse(fmt[0]) if isinstance(fmt[0], ast.Call) else valn}` formats every int, bool included: the gate argument True (accepted by the builder and by Parameter.validate as the integer 1) is written as `True` -- after the exponent patch `Tru.0e` -- which the parser rejects, or reads as three other arguments when lets named `Tru` and `e` exist", f"{f.path}:{first}", witness="CircuitBuilder().gate('g', r[0], True)")
+
+
+_add("C01", value_writer_converts_bool, "C01.20")
+_add("C20", value_writer_converts_bool, "C20.15")
